@@ -43,7 +43,9 @@ def conjuncts(test: ast.AST, holds_on: str = "t"):
         yield from conjuncts(t.operand, "f" if holds_on == "t" else "t")
         return
     if isinstance(t, ast.BoolOp):
-        return  # `a or b` on the true edge / `a and b` on the false edge: nothing certain
+        # `a or b` on the true edge / `a and b` on the false edge: only the compound itself is known
+        yield t, (holds_on == "t")
+        return
     for pos, edge in atoms(t):
         yield pos, (edge == holds_on)
 
@@ -279,8 +281,8 @@ def resolve(e: ast.AST, fn: ast.AST, depth: int = 6) -> ast.AST:
     return go(e, depth)
 
 
-def rnorm(e: ast.AST, fn: ast.AST) -> str:
-    return norm(resolve(e, fn))
+def rnorm(e: ast.AST, fn: ast.AST, depth: int = 6) -> str:
+    return norm(resolve(e, fn, depth))
 
 
 # ---------------------------------------------------------------- lexical condition context
